@@ -540,6 +540,7 @@ func edits(full bool) (states, transitions int, cands []candidate) {
 		wg.Wait()
 		run.Cov["edits_announced_by_other_event_masks"] = maskedEvents
 	}
+	run.Cov["edits_of_constants_outside_literals_and_expressions"] = constantEdits(dir)
 	// 1b. a save that arrives WHILE the previous one is being handled: the handler is writing the generated code of
 	// version A when the file is saved again as version B (later modification time); the event for B follows. It must be
 	// handled as B after A: same decision as in step 1, and the text file must be B's.
